@@ -214,6 +214,47 @@ def _has_bound_var(t):
 # ---------------------------------------------------------------------------
 
 
+CVC5 = {"agree": 0, "unknown": 0, "disagree": 0, "seconds": 0.0}
+
+
+def second_opinion(solver, timeout_s=20):
+    """thorough tier: re-decide an `unsat` query with cvc5 from the exported SMT-LIB text.
+    -> 'unsat' | 'sat' | 'unknown'"""
+    import os, subprocess, tempfile
+    t0 = time.time()
+    txt = solver.to_smt2()
+    fd, path = tempfile.mkstemp(suffix=".smt2", prefix="pyvc.")
+    try:
+        with os.fdopen(fd, "w") as fh:
+            fh.write("(set-logic ALL)\n" + txt)
+        cp = subprocess.run(["/usr/bin/cvc5", "--tlimit=%d" % (timeout_s * 1000), path], capture_output=True, text=True,
+                            timeout=timeout_s + 10)
+        out = cp.stdout.strip().splitlines()
+        r = out[0] if out else "unknown"
+        if r not in ("unsat", "sat"):
+            r = "unknown"
+    except Exception:
+        r = "unknown"
+    finally:
+        try:
+            os.unlink(path)
+        except OSError:
+            pass
+    CVC5["seconds"] += time.time() - t0
+    CVC5["agree" if r == "unsat" else ("disagree" if r == "sat" else "unknown")] += 1
+    return r
+
+
+def _proved(solver, t0, reason, ninst=0):
+    import os
+    if os.environ.get("PYVC_CVC5") == "1":
+        r = second_opinion(solver)
+        if r == "sat":
+            return Result("unknown", seconds=time.time() - t0, reason="z3 says unsat (%s) but cvc5 says sat" % reason, ninst=ninst)
+        reason = reason + ";cvc5=" + r
+    return Result("proved", seconds=time.time() - t0, reason=reason, ninst=ninst)
+
+
 class Result:
     def __init__(self, status, model=None, seconds=0.0, rounds=0, reason="", ninst=0):
         self.status = status      # 'proved' | 'refuted' | 'unknown'
@@ -336,7 +377,7 @@ def solve(hyps, goal_negated, timeout_ms=10000, want_model=True, len_terms=(), m
                 s1.add(z3.ForAll(vs, fa.inst(*vs)))
             r = s1.check()
             if r == z3.unsat:
-                return Result("proved", seconds=time.time() - t0, reason="ematching")
+                return _proved(s1, t0, "ematching")
         # 1b. our own instantiation over the index terms of the query (quantifier free)
         for _ in range(2):
             terms = collect_index_terms(base + insts)
@@ -351,7 +392,7 @@ def solve(hyps, goal_negated, timeout_ms=10000, want_model=True, len_terms=(), m
             s1.add(f)
         r = s1.check()
         if r == z3.unsat:
-            return Result("proved", seconds=time.time() - t0, ninst=len(insts), reason="index-set instantiation")
+            return _proved(s1, t0, "index-set instantiation", len(insts))
         stage1 = "sat-after-instantiation" if r == z3.sat else "unknown:" + s1.reason_unknown()
         # 1c. list views shift indices (pop/insert by 1, slices and concatenations by a length or a ghost count):
         #     close the index set under those offsets and try once more
@@ -378,8 +419,7 @@ def solve(hyps, goal_negated, timeout_ms=10000, want_model=True, len_terms=(), m
                 s1.add(f)
             r = s1.check()
             if r == z3.unsat:
-                return Result("proved", seconds=time.time() - t0, ninst=len(insts),
-                              reason="index-set instantiation closed under view offsets")
+                return _proved(s1, t0, "index-set instantiation closed under view offsets", len(insts))
         if not want_model:
             return Result("unknown", seconds=time.time() - t0, reason=stage1)
     else:
@@ -439,7 +479,7 @@ def solve(hyps, goal_negated, timeout_ms=10000, want_model=True, len_terms=(), m
             vs = [z3.Int("q!%d" % k) for k in range(fa.n)]
             s3.add(z3.ForAll(vs, fa.inst(*vs)))
         if s3.check() == z3.unsat:
-            return Result("proved", seconds=time.time() - t0, ninst=len(insts), reason="mbqi")
+            return _proved(s3, t0, "mbqi", len(insts))
     return Result("unknown", seconds=time.time() - t0, ninst=len(insts),
                   reason="stage1=%s; no counter-model with all list lengths <= 8 survives validation" % stage1)
 
